@@ -14,6 +14,7 @@ two reserved tail slots, `MerkleRootCalculator`, `should_revert`, `MemoryClient:
 -/
 import FuelVerif.Lemmas.Outcome
 import FuelVerif.Lemmas.Ledger
+import FuelVerif.Gen.Outcome
 namespace FuelVerif.Outcome
 open FuelVerif
 
@@ -298,6 +299,14 @@ theorem revert_outputs (l : Ledger.Ledger) (initial : Nat → Option Nat) (refun
   · intro h
     have := Ledger.change_amount_spec_aux l initial refund a v h
     exact this
+
+/-- obligation on the constants regenerated from receipts.rs / state.rs on every run: the model's limit is
+`ReceiptsCtx::MAX_RECEIPTS`, two tail slots are reserved, `should_revert` looks for Revert and Panic receipts.
+(The translator also fails closed on the text of `push`, `run_program`'s arms, `append_panic_receipt`,
+`MemoryClient::transact` and `MemoryStorage::{commit,revert}`.) -/
+theorem limits_match_code :
+    maxReceipts = Gen.receiptsMax ∧ Gen.receiptsMax = 65535 ∧ Gen.reservedTailSlots = 2 ∧
+    Gen.shouldRevertKinds = ["Revert", "Panic"] := by decide
 
 /-! ### non-vacuity -/
 
